@@ -535,6 +535,11 @@ class Node:
         for item in attr_node.seq_items():
             # we've already checked that it's a SequenceNode above
             key_node = item.get_attribute(key_attribute).yaml_node
+            # the item may be referred to from elsewhere too, and
+            # must keep its key there, so change a copy of it
+            item = Node(yaml.MappingNode(
+                item.yaml_node.tag, list(item.yaml_node.value),
+                item.yaml_node.start_mark, item.yaml_node.end_mark))
             item.remove_attribute(key_attribute)
             if (
                     value_attribute is not None and
@@ -778,10 +783,13 @@ class Node:
 
         new_value = list()
         for key_node, value_node in attr_node.yaml_node.value:
-            # filter out key atttribute
-            value_node.value = [
-                    (k, v) for k, v in value_node.value
-                    if k.value != key_attribute]
+            # filter out key atttribute, in a copy of the item as it
+            # may be referred to from elsewhere too
+            value_node = yaml.MappingNode(
+                    value_node.tag,
+                    [(k, v) for k, v in value_node.value
+                        if k.value != key_attribute],
+                    value_node.start_mark, value_node.end_mark)
 
             # replace mapping with value attribute, if it's the only one
             if (
